@@ -802,6 +802,92 @@ struct LedRunner {
     } // ~Table here: every library object of the line is gone before vh::emit
 };
 
+// ---- big tables (C13: "across every growth and rehash" beyond 2^16 buckets) ------------------------
+//   htbig <A|L> <n>  ->  one record per phase, '|'-joined:  size cap actual found absent idx val ordhash
+//   phases: n inserts | copy-construct + move back | Sort(true) | remove the even-numbered keys | Compress |
+//           Resize(n/4).  After each phase EVERY key ever inserted is looked up: found (and `absent` = removed
+//   keys that are not found), idx = GetKeyIndex -> GetKey round trips, val = value is the one stored;
+//   ordhash = Adler-32 over (key, 0, value, 1) of the live slots in index order.  Keys: decimal of (i*48271 mod 2^31-1).
+static std::string big_key(uint64_t i) { return std::to_string(((i + 1) * 48271ULL) % 2147483647ULL); }
+
+template <typename Table, bool HasValue>
+struct BigRunner {
+    template <bool B = HasValue>
+    static typename std::enable_if<B>::type ins(Table &h, const std::string &k, SizeT v) {
+        const char *kp = k.data();
+        h.Insert(Key(kp, SizeT(k.size())), SizeT(v));
+    }
+    template <bool B = HasValue>
+    static typename std::enable_if<!B>::type ins(Table &h, const std::string &k, SizeT) {
+        const char *kp = k.data();
+        h.Insert(kp, SizeT(k.size()));
+    }
+    template <bool B = HasValue>
+    static typename std::enable_if<B, bool>::type valOk(const Table &h, const char *kp, SizeT len, SizeT idx, SizeT v) {
+        const SizeT *a = h.GetValue(kp, len), *b = h.GetValue(idx);
+        return a != nullptr && a == b && *a == v;
+    }
+    template <bool B = HasValue>
+    static typename std::enable_if<!B, bool>::type valOk(const Table &, const char *, SizeT, SizeT, SizeT) { return true; }
+    template <bool B = HasValue>
+    static typename std::enable_if<B, uint64_t>::type valOf(const Table &h, SizeT i) { return *h.GetValue(i); }
+    template <bool B = HasValue>
+    static typename std::enable_if<!B, uint64_t>::type valOf(const Table &, SizeT) { return 0; }
+
+    static std::string phase(const Table &h, uint64_t n, const std::vector<char> &removed) {
+        uint64_t found = 0, absent = 0, idxok = 0, valok = 0;
+        for (uint64_t i = 0; i < n; ++i) {
+            const std::string k  = big_key(i);
+            const char       *kp = k.data();
+            SizeT             idx = 0;
+            const bool        f   = h.GetKeyIndex(idx, kp, SizeT(k.size())) && h.Has(kp, SizeT(k.size()));
+            if (!f) { absent += removed[i] ? 1 : 0; continue; }
+            ++found;
+            const Key *back = h.GetKey(idx);
+            if (back != nullptr && back->IsEqual(kp, SizeT(k.size()))) ++idxok;
+            if (valOk(h, kp, SizeT(k.size()), idx, SizeT(i + 1))) ++valok;
+        }
+        uint64_t ha = 1, hb = 0; // Adler-32 (zlib.adler32 on the reference side)
+        auto     mix = [&ha, &hb](unsigned char c) { ha = (ha + c) % 65521; hb = (hb + ha) % 65521; };
+        for (SizeT i = 0; i < h.Size(); ++i) {
+            const Key *k = h.GetKey(i);
+            if (k == nullptr) continue;
+            for (SizeT j = 0; j < k->Length(); ++j) mix(static_cast<unsigned char>(k->First()[j]));
+            mix(0);
+            for (char c : std::to_string(valOf(h, i))) mix(static_cast<unsigned char>(c));
+            mix(1);
+        }
+        return std::to_string(h.Size()) + " " + std::to_string(h.Capacity()) + " " + std::to_string(h.ActualSize()) + " " + std::to_string(found) +
+               " " + std::to_string(absent) + " " + std::to_string(idxok) + " " + std::to_string(valok) + " " + std::to_string((hb << 16) | ha);
+    }
+
+    static std::string run(uint64_t n) {
+        std::string       out;
+        std::vector<char> removed(n, 0);
+        Table             h;
+        for (uint64_t i = 0; i < n; ++i) ins(h, big_key(i), SizeT(i + 1));
+        out += phase(h, n, removed);
+        { Table t(h); h = Memory::Move(t); }
+        out += "|" + phase(h, n, removed);
+        h.Sort(true);
+        out += "|" + phase(h, n, removed);
+        for (uint64_t i = 0; i < n; i += 2) {
+            const std::string k = big_key(i);
+            const char       *kp = k.data();
+            h.Remove(kp, SizeT(k.size()));
+            removed[i] = 1;
+        }
+        out += "|" + phase(h, n, removed);
+        h.Compress();
+        out += "|" + phase(h, n, removed);
+        // Resize(n/4) keeps the first n/4 slots: which keys those are is decided by the caller's reference
+        h.Resize(SizeT(n / 4));
+        for (uint64_t i = 0; i < n; ++i) removed[i] = 1; // `absent` then counts every key that is not found
+        out += "|" + phase(h, n, removed);
+        return out;
+    }
+};
+
 int main() {
     std::string line;
     while (vh::read_line(line)) {
@@ -833,6 +919,12 @@ int main() {
             const char k[] = "a";
             h.Insert(Key{k, 1});
             out = "survived";
+        } else if (t.size() == 3 && t[0] == "htbig") {
+            const uint64_t n = strtoull(t[2].c_str(), nullptr, 10);
+            if (n == 0 || n > 2000000) out = "bad-op";
+            else if (t[1] == "A") out = BigRunner<HArray<Key, SizeT>, true>::run(n);
+            else if (t[1] == "L") out = BigRunner<HList<Key>, false>::run(n);
+            else out = "bad-op";
         } else if (t.size() == 2 && t[0] == "hthash") {
             std::vector<uint64_t> u;
             if (!vh::parse_nats(t[1], u)) {
